@@ -7,7 +7,11 @@ from props import PROPS, NOT_APPLICABLE
 
 checks = []
 for pid in sorted(PROPS):
-    p = PROPS[pid]
+    p = dict(PROPS[pid])
+    wunits = [u for e, u in p['units'] if u.endswith('_w')]
+    if wunits:
+        p['technique'] += '; behind the deductive units a refutation-only witness search (units %s: the real compiled functions run natively on biased random inputs against the clauses of the property; a hit is a replayed concrete input; proves nothing and is not counted)' % ', '.join(wunits)
+        p['level_note'] += ' Witness-search units (%s) are refutation-only: listed in the evidence under witness_search_not_counted_as_proved, excluded from obligations/discharged; clauses they alone look at stay under not_decided.' % ', '.join(wunits)
     checks.append(dict(
         property_id=pid,
         quick_cmd='./check %s --tier quick' % pid,
